@@ -4,7 +4,12 @@
 #include "verif.h"
 #include <time.h>
 time_t time (time_t *t) { static time_t now = 1000; now += 1; if (t) *t = now; return now; }
-void call_out (void) { VERIF_UNREACHABLE ("call_out"); }
+/* the other periodic tasks of the tick (C09): while they run no heart beat is in progress, so that an error raised by a
+   call_out, reset() or clean_up() cannot switch off the heart beat of the object that happened to beat last */
+extern object_t *current_heart_beat;
+int verif_other_tasks_ran;
+void call_out (void) { verif_other_tasks_ran++; VERIF_ASSERT ("C09.no_heart_beat_in_progress_while_call_outs_run", current_heart_beat == 0); }
+void look_for_objects_to_swap (void) { verif_other_tasks_ran++; VERIF_ASSERT ("C09.no_heart_beat_in_progress_while_reset_and_clean_up_run", current_heart_beat == 0); }
 int64_t get_config_int (int k) { (void) k; return 1000000; }
 #ifdef VERIF_CBMC
 /* table growth (CALLOCATE/RESIZE of heart_beats) is cut: the table has room for every object of the universe */
